@@ -3,6 +3,7 @@ package main
 import (
 	"encoding/json"
 	"fmt"
+	oci "github.com/opencontainers/runtime-spec/specs-go"
 	"math/rand"
 	"os"
 	"os/exec"
@@ -26,6 +27,7 @@ type reconfStream struct{}
 func init() {
 	register(reconfStream{})
 	childModes["defaultcache"] = childDefaultCache
+	childModes["defaultapi"] = childDefaultAPI
 }
 
 func (reconfStream) Name() string          { return "reconf" }
@@ -37,7 +39,7 @@ var reconfRoot = scratchRoot("/tmp/cdi-verif-reconf")
 var reconfDirs = []string{"P0", "P1", "P2", "P3missing"}
 
 type reconfOpt struct {
-	Dirs []string `json:"dirs,omitempty"`
+	Dirs []string `json:"dirs"` // also the empty list: WithSpecDirs() with no directory
 	Auto *bool    `json:"auto,omitempty"`
 	// a step that is a file-system change instead of a Configure call: "add:<dir>" (a new Spec file), "del:<dir>"
 	Fs string `json:"fs,omitempty"`
@@ -57,7 +59,7 @@ func genHist(rng *rand.Rand, n int) [][]reconfOpt {
 				step = append(step, reconfOpt{Auto: &b})
 			} else {
 				var ds []string
-				for m := 1 + rng.Intn(3); m > 0; m-- {
+				for m := rng.Intn(4)*rng.Intn(2) + rng.Intn(2); m > 0; m-- {
 					ds = append(ds, reconfDirs[rng.Intn(len(reconfDirs))])
 				}
 				step = append(step, reconfOpt{Dirs: ds})
@@ -100,6 +102,9 @@ func (reconfStream) Generate(rng *rand.Rand, tier string, emit func(Case)) {
 		{[][]reconfOpt{{{Fs: "add:P0"}}, {{Auto: &tr}}}, -1},
 		{[][]reconfOpt{{{Dirs: []string{"P1"}}}, {{Fs: "add:P1"}}}, -1},
 		{[][]reconfOpt{{{Auto: &fa}}, {{Fs: "add:P0"}}}, -1},
+		// an empty directory list is a directory list
+		{[][]reconfOpt{{{Dirs: []string{}}}}, -1},
+		{[][]reconfOpt{{{Dirs: []string{"P1"}}}, {{Dirs: []string{}}, {Auto: &fa}}}, -1},
 	} {
 		hj, _ := json.Marshal(fx.h)
 		var hm []any
@@ -119,6 +124,30 @@ func (reconfStream) Generate(rng *rand.Rand, tier string, emit func(Case)) {
 	}
 	for _, mode := range []string{"configure-first", "use-then-configure", "configure-twice"} {
 		emit(Case{"op": "default", "mode": mode})
+	}
+	// the package-level functions (cdi.Configure / Refresh / GetErrors / InjectDevices) against the methods
+	// of an explicitly created cache, on generated directory layouts
+	nl := 6
+	if tier == "thorough" {
+		nl = 60
+	}
+	for i := 0; i < nl; i++ {
+		l := genLayout(rng)
+		if i%2 == 0 {
+			l = genCleanLayout(rng)
+		}
+		lj, _ := json.Marshal(l)
+		var lm map[string]any
+		_ = json.Unmarshal(lj, &lm)
+		var req []any
+		for k := 1 + rng.Intn(3); k > 0; k-- {
+			req = append(req, poolVendors[rng.Intn(2)]+"/"+poolClasses[rng.Intn(2)]+"="+poolDevs[rng.Intn(3)])
+		}
+		emit(Case{"op": "defaultapi", "layout": lm, "req": req, "listed": rng.Intn(2) == 0})
+		if i%3 == 0 {
+			emit(Case{"op": "defaultapi", "layout": lm, "req": []any{}, "listed": false, "nilspec": true})
+			emit(Case{"op": "defaultapi", "layout": lm, "req": req, "listed": true, "nilspec": true})
+		}
 	}
 }
 
@@ -308,12 +337,29 @@ func (reconfStream) Execute(c Case) {
 		}
 		fresh, _ := cdi.NewCache(cdi.WithSpecDirs(abs...), cdi.WithAutoRefresh(finalAuto))
 		r2 := resourcesUntil(func(r procRes) bool { return r.minus(r1) == r1.minus(r0) })
+		// the first query after the history varies: each of them has to bring the cache up to date by itself
+		firstOK := true
+		switch len(hist) % 5 {
+		case 1:
+			a, b := cache.GetVendorSpecs("vendor.com"), fresh.GetVendorSpecs("vendor.com")
+			firstOK = len(a) == len(b)
+		case 2:
+			firstOK = reflect.DeepEqual(cache.ListVendors(), fresh.ListVendors())
+		case 3:
+			firstOK = reflect.DeepEqual(cache.ListClasses(), fresh.ListClasses())
+		case 4:
+			firstOK = (cache.GetDevice("vendor.com/p1=dev") == nil) == (fresh.GetDevice("vendor.com/p1=dev") == nil)
+		}
 		same := func() bool {
-			return reflect.DeepEqual(cache.ListDevices(), fresh.ListDevices()) &&
+			return firstOK && reflect.DeepEqual(cache.ListDevices(), fresh.ListDevices()) &&
 				reflect.DeepEqual(fileErrors(cache), fileErrors(fresh)) &&
 				reflect.DeepEqual(cache.GetSpecDirectories(), fresh.GetSpecDirectories())
 		}
 		isSame := same()
+		if !isSame && !firstOK && finalAuto && dirty {
+			firstOK = true // the watcher may still have been catching up: judged by the polling below
+			isSame = same()
+		}
 		if !isSame && finalAuto && dirty {
 			// the watcher goroutine may still be catching up with the last file-system change
 			for deadline := time.Now().Add(6 * time.Second); !isSame && time.Now().Before(deadline); isSame = same() {
@@ -402,6 +448,32 @@ func (reconfStream) Execute(c Case) {
 		r3 := resourcesUntil(func(r procRes) bool { return r == r0 })
 		l := r3.minus(r0)
 		obs["leak"] = map[string]any{"fds": l.Fds, "inotify": l.Inotify, "watches": l.Watches, "goroutines": l.Goroutines}
+	case "defaultapi":
+		defer os.RemoveAll(cacheRoot)
+		var l layoutDesc
+		lj, _ := json.Marshal(c["layout"])
+		_ = json.Unmarshal(lj, &l)
+		dirs, _ := materialize(l)
+		var req []string
+		for _, r := range c["req"].([]any) {
+			req = append(req, r.(string))
+		}
+		explicit, _ := cdi.NewCache(cdi.WithSpecDirs(dirs...), cdi.WithAutoRefresh(false))
+		if listed, _ := c["listed"].(bool); listed {
+			// request what resolves, so that the injection succeeds
+			if devs := explicit.ListDevices(); len(devs) > 0 {
+				req = devs
+			}
+		}
+		nilSpec, _ := c["nilspec"].(bool)
+		want := defaultAPIImage(explicit.Refresh, explicit.GetErrors, explicit.InjectDevices, explicit.ListDevices, req, nilSpec)
+		self, _ := os.Executable()
+		args, _ := json.Marshal(map[string]any{"dirs": dirs, "req": req, "nilspec": nilSpec})
+		out, err := exec.Command(self, "child", "defaultapi", string(args)).Output()
+		obs["sameasfresh"] = err == nil && strings.TrimSpace(string(out)) == want
+		if err != nil || strings.TrimSpace(string(out)) != want {
+			obs["got"], obs["want"] = strings.TrimSpace(string(out)), want
+		}
 	case "default":
 		setupReconfTree()
 		self, _ := os.Executable()
@@ -413,6 +485,46 @@ func (reconfStream) Execute(c Case) {
 		obs["sameasfresh"] = err == nil && reflect.DeepEqual(got, fresh.ListDevices())
 		obs["got"] = fmt.Sprint(got)
 	}
+}
+
+// defaultAPIImage renders what the four operations return, for comparison between the package-level
+// functions and the methods of an explicit cache.
+func defaultAPIImage(refresh func() error, getErrors func() map[string][]error,
+	inject func(*oci.Spec, ...string) ([]string, error), list func() []string, req []string, nilSpec bool) string {
+	img := map[string]any{}
+	img["refresherr"] = refresh() != nil
+	keys := []string{}
+	for k := range getErrors() {
+		keys = append(keys, k)
+	}
+	sort.Strings(keys)
+	img["errorkeys"] = keys
+	o := &oci.Spec{Version: "1.0.2", Process: &oci.Process{Env: []string{"PATH=/bin"}}}
+	if nilSpec {
+		o = nil
+	}
+	unresolved, err := inject(o, req...)
+	img["unresolved"], img["injecterr"] = unresolved, err != nil
+	img["oci"] = jsonImage(o)
+	if list != nil {
+		img["devices"] = list()
+	}
+	b, _ := json.Marshal(img)
+	return string(b)
+}
+
+func childDefaultAPI(args []string) int {
+	var a struct {
+		Dirs    []string `json:"dirs"`
+		Req     []string `json:"req"`
+		NilSpec bool     `json:"nilspec"`
+	}
+	if json.Unmarshal([]byte(args[0]), &a) != nil {
+		return 2
+	}
+	_ = cdi.Configure(cdi.WithSpecDirs(a.Dirs...), cdi.WithAutoRefresh(false))
+	fmt.Println(defaultAPIImage(cdi.Refresh, cdi.GetErrors, cdi.InjectDevices, cdi.GetDefaultCache().ListDevices, a.Req, a.NilSpec))
+	return 0
 }
 
 // childDefaultCache: the package-level default cache needs a fresh process (sync.Once).
